@@ -1850,6 +1850,52 @@ def rule_r8(chk, prog):
                       f'{wrong[:1]})', loc=m.loc(f), nontrivial=True)
 
 
+def rule_r13(chk, prog):
+    chk.rule('C15.R13', 'the record types that carry proposals have no '
+             'mutable default value: a list / dict / set given as a '
+             'namedtuple default (or as a parameter default of a '
+             'function that builds proposals) is ONE object shared by '
+             'every record that omits the field')
+    n = 0
+
+    def mutable(e):
+        return isinstance(e, (ast.List, ast.Dict, ast.Set, ast.ListComp,
+                              ast.DictComp, ast.SetComp)) or (
+            isinstance(e, ast.Call) and call_name(e) in (
+                'list', 'dict', 'set', 'collections.defaultdict',
+                'collections.deque', 'bytearray'))
+
+    for m_ in prog.pkg_modules():
+        if 'tests' in m_.rel():
+            continue
+        for c in ast.walk(m_.tree):
+            if isinstance(c, ast.Call) and (call_name(c) or '') in (
+                    'collections.namedtuple', 'namedtuple'):
+                n += 1
+                d = kw(c, 'defaults')
+                bad = [x for x in (d.elts if isinstance(
+                    d, (ast.Tuple, ast.List)) else []) if mutable(x)]
+                chk.check('C15.R13', m_.name, c, not bad,
+                          f'"{unparse(c)[:60]}" has the mutable default '
+                          f'{unparse(bad[0]) if bad else ""}: every '
+                          'record built without that field shares it; '
+                          'what one proposal appends (fresh '
+                          'declarations, substitutions) shows up in '
+                          'all later ones', loc=m_.loc(c),
+                          nontrivial=True)
+            if isinstance(c, ast.ClassDef) and any(
+                    unparse(b) in ('typing.NamedTuple', 'NamedTuple')
+                    for b in c.bases):
+                n += 1
+                bad = [b for b in c.body if isinstance(b, ast.AnnAssign)
+                       and b.value is not None and mutable(b.value)]
+                chk.check('C15.R13', m_.name, c.name, not bad,
+                          f'record {c.name} has the mutable default '
+                          f'"{unparse(bad[0])[:50] if bad else ""}"',
+                          loc=m_.loc(c), nontrivial=True)
+    chk.floor('C15.R13', 'record types', n, 4)
+
+
 def run(tier):
     prog = Program()
     chk = Check(
@@ -1930,52 +1976,7 @@ def run(tier):
               'no function of the tree core that applies a proposal recurses over the nesting depth (directly, through helpers, generators, tuple comparison, deepcopy or the generic pickler)',
               [('nodes', 'substitute'), ('nodes', 'Node.__eq__'), ('nodes', 'Node.__hash__')],
               'proposals that lie inside or behind a deeply nested term cannot be applied (RecursionError)')
-    def _record_defaults(chk, prog):
-        chk.rule('C15.R13', 'the record types that carry proposals have no '
-                 'mutable default value: a list / dict / set given as a '
-                 'namedtuple default (or as a parameter default of a '
-                 'function that builds proposals) is ONE object shared by '
-                 'every record that omits the field')
-        n = 0
-
-        def mutable(e):
-            return isinstance(e, (ast.List, ast.Dict, ast.Set, ast.ListComp,
-                                  ast.DictComp, ast.SetComp)) or (
-                isinstance(e, ast.Call) and call_name(e) in (
-                    'list', 'dict', 'set', 'collections.defaultdict',
-                    'collections.deque', 'bytearray'))
-
-        for m_ in prog.pkg_modules():
-            if 'tests' in m_.rel():
-                continue
-            for c in ast.walk(m_.tree):
-                if isinstance(c, ast.Call) and (call_name(c) or '') in (
-                        'collections.namedtuple', 'namedtuple'):
-                    n += 1
-                    d = kw(c, 'defaults')
-                    bad = [x for x in (d.elts if isinstance(
-                        d, (ast.Tuple, ast.List)) else []) if mutable(x)]
-                    chk.check('C15.R13', m_.name, c, not bad,
-                              f'"{unparse(c)[:60]}" has the mutable default '
-                              f'{unparse(bad[0]) if bad else ""}: every '
-                              'record built without that field shares it; '
-                              'what one proposal appends (fresh '
-                              'declarations, substitutions) shows up in '
-                              'all later ones', loc=m_.loc(c),
-                              nontrivial=True)
-                if isinstance(c, ast.ClassDef) and any(
-                        unparse(b) in ('typing.NamedTuple', 'NamedTuple')
-                        for b in c.bases):
-                    n += 1
-                    bad = [b for b in c.body if isinstance(b, ast.AnnAssign)
-                           and b.value is not None and mutable(b.value)]
-                    chk.check('C15.R13', m_.name, c.name, not bad,
-                              f'record {c.name} has the mutable default '
-                              f'"{unparse(bad[0])[:50] if bad else ""}"',
-                              loc=m_.loc(c), nontrivial=True)
-        chk.floor('C15.R13', 'record types', n, 4)
-
-    chk.guard(_record_defaults, chk, prog)
+    chk.guard(rule_r13, chk, prog)
     from .. import mutstate
     chk.guard(mutstate.report, chk, prog, 'C15.R12',
               'mutators keep no state from one call to the next: their '
